@@ -1,5 +1,5 @@
 \* every price-guard weakening in one TLC run (small price grid, one removed node; the same-type rule needs two: WeakAllMulti): WeakDetect prints <<"REJ", rule>> for each weakened rule
 \* under which an invariant breaks; checks/C06.py requires every rule to be printed (quick tier)
-CONSTANTS NTypes = 2  Prices = {1, 2}  ZMods = {"dear"}  MaxCands = 1  MinS2S = 2  Focus = "price"  Weak = "*price"  GenMod = 1  GenRes = 0
+CONSTANTS NTypes = 2  Prices = {1, 2}  ZMods = {"dear"}  MaxCands = 1  MinS2S = 2  Focus = "price"  UnavCTs = {}  Weak = "*price"  GenMod = 1  GenRes = 0
 SPECIFICATION Spec
 INVARIANTS WeakDetect
